@@ -132,6 +132,8 @@ def panic_head(text):
     return text[i:i + 600]
 
 
+EXERCISED = {}      # predicate -> number of executions in which its antecedent held (vacuity guard, reset per check run)
+
 TRACEP_CFG = """SPECIFICATION Spec
 INVARIANT Judge
 CHECK_DEADLOCK FALSE
@@ -170,6 +172,8 @@ def _judge_chunk(traces, d, tag, chunk, c0):
         for v in r.json_prints():
             if v.get("t") == "DONE":
                 done.add(v["ti"])
+                for pname in v.get("ex") or []:
+                    EXERCISED[pname] = EXERCISED.get(pname, 0) + 1
             elif v.get("t") == "PVIOL":
                 viols.append((c0 + v["ti"] - 1, v["w"], sorted(v["preds"])))
         if len(done) != len(part):
